@@ -104,9 +104,12 @@ class FamilyInit(InitMode):
         if f in self.fam.skip_fields:
             return rest()
         if f in self.fam.field_types:
-            if not py2v.compat(t, self.fam.field_types[f]):
-                bad(None, f"field {f}: a value of type {t} where the unit declares {self.fam.field_types[f]}")
-            t = self.fam.field_types[f]
+            ft_ = self.fam.field_types[f]
+            if t == "none" and isinstance(ft_, tuple) and ft_[0] == "opt":
+                v = self.coerce(v, "none", ft_, None)  # None in a field the unit declares optional
+            elif not py2v.compat(t, ft_):
+                bad(None, f"field {f}: a value of type {t} where the unit declares {ft_}")
+            t = ft_
         if t == "none" and f in self.fam.declared:
             t = self.fam.declared[f]
             v = self.coerce(v, "none", t, None)
